@@ -32,7 +32,7 @@ man = {
     "hooks": {
         "guard": "VOTEKIT_VERIF",
         "enable": "environment variable VOTEKIT_VERIF=nodf (set by ./vk); sources are imported from /repo/src, nothing is built",
-        "baseline_off_cmd": "cd /repo && /venv/bin/python -m pytest -ra -q -p no:cacheprovider --timeout=900 --continue-on-collection-errors",
+        "baseline_off_cmd": "cd /repo && env -u VOTEKIT_VERIF /venv/bin/python -m pytest -ra -q -p no:cacheprovider --timeout=900 --continue-on-collection-errors",
         "source_commits": HOOK_COMMITS,
         "add_only": True,
     },
